@@ -7,6 +7,7 @@ import PercevalModel.Model.C20
      "G":rows|null,"leak":bool,"spec":bool}
         -> {"A":rows(out,in),"c":[re,im],"succ":q,"dev2":q,"leak":[q per input],"specOk":bool}
     {"op":"label","fixed":bool,"gates":[[name,[qubits]],…]} -> {"labels":[…],"pp":[[a,b],…]}
+    {"op":"labelenum","fixed":bool,"nq":n,"k":k,"first":[a,b]} -> {"flags":"010,110,…"} (all CNOT sequences)
     {"op":"plan","fixed":bool,"ups":bool,"gates":[…]}      -> {"kinds":[…],"heralds":[…]}
     {"op":"cyclic","edges":[[a,b],…]}                      -> {"cyclic":bool}
     {"op":"maxralph","pairs":[[a,b],…],"extra":[[a,b],…]}  -> {"pairs":[[a,b],…]}
@@ -77,6 +78,15 @@ def handle (j : Json) : Json :=
       if gs.any (fun g => isCnot g && g.qubits.length ≠ 2) then throw "ValueError"
       return Json.mkObj [("labels", toJson (labelCnots fixed gs)),
         ("pp", edgesToJson (ppPairs fixed gs))]
+    | "labelenum" =>
+      -- every sequence of `k` CNOTs on `nq` qubits that starts with `first`, product order
+      let fixed ← boolOf j "fixed"
+      let nq ← natOf j "nq"
+      let k ← natOf j "k"
+      let first ← edgeOfJson (← j.getObjVal? "first")
+      if k = 0 then throw "k = 0"
+      let seqs := (allSeqs (orderedPairs nq) (k - 1)).map (first :: ·)
+      return Json.mkObj [("flags", Json.str (",".intercalate (seqs.map (flagString fixed))))]
     | "plan" =>
       let fixed ← boolOf j "fixed"
       let ups ← boolOf j "ups"
